@@ -707,6 +707,23 @@ def coincidence_specs():
     res.append(hand_spec("wco6", [("Mode", "int32")],
                          [[(["ModeZulu"], T, [lit(-3)]), (["ModeYank"], T, [lit(-2)]), (["ModeAlfa"], T, [lit(2)])]],
                          [("Mode", {})], cli=["-version=t8", "-verbose"]))                                # -3 -2 2
+    # multi-name specs in which a blank identifier stands FIRST, in the middle or last, next to real constants, and
+    # the rows carried down from them: `_` declares nothing, its neighbours in the same spec are declared constants
+    T = ("ident", "Level")
+    res.append(hand_spec("wco7", [("Level", "int")],
+                         [[(["_", "LevelLow"], T, [I, ("add", I, lit(10))]), (["_", "LevelMid"], None, []),
+                           (["LevelHigh", "_"], None, [])]], [("Level", {})]))                           # 10 11 2
+    T = ("ident", "Lane")
+    res.append(hand_spec("wco8", [("Lane", "uint16")],
+                         [[(["LaneA", "_", "LaneB"], T, [("mul", I, lit(3)), ("add", ("mul", I, lit(3)), lit(1)),
+                                                        ("add", ("mul", I, lit(3)), lit(2))]),
+                           (["_", "_", "LaneC"], None, []), (["_", "LaneD", "_"], None, []),
+                           (["_", "_", "_"], None, []), (["LaneE", "LaneF", "LaneG"], None, [])]],
+                         [("Lane", {})], cli=["-v"]))                                                    # 0 2 5 7 12 13 14
+    T = ("ident", "Pair")
+    res.append(hand_spec("wco9", [("Pair", "int8")],
+                         [[(["_", "PairOnly"], T, [lit(-1), lit(7)])], [(["_"], T, [I]), (["PairNext"], None, [])]],
+                         [("Pair", {})]))                                                                # 7 | 1
     return res
 
 
